@@ -67,7 +67,13 @@ def gen_case(rng, pool):
         nd = rng.randint(1, 6)
         par = rng.random() < 0.12
         for _ in range(nd):
-            add_design(rng, case, script=par_script(rng) if par else random_script(rng))
+            sc = par_script(rng) if par else random_script(rng)
+            if case["designs"] and rng.random() < 0.25:
+                # another design object with the vector of an earlier one (the harness lets odd-numbered twins share the very
+                # same vector object): a failure of one must not touch the other
+                add_design(rng, case, script=sc, v=list(rng.choice(case["designs"])["vec"]))
+            else:
+                add_design(rng, case, script=sc)
         keys = list(range(nd))
         case["program"].append(["n", keys])
         first = "par" if par else "b"
